@@ -170,6 +170,10 @@ func runC08() {
 	for i := 0; i < 60; i++ {
 		p := aliasProgram(provenances[r.Intn(len(provenances))], transforms[r.Intn(len(transforms))], twinValues[r.Intn(len(twinValues))], 0, r.Bool())
 		p.HasTx, p.HasPrev, p.TxVersion, p.InSeq = true, true, 1, 0xffffffff
+		p.ScriptsApart = i%2 == 1 // an unsigned transaction checked against a candidate unlocking script
+		if i%4 == 3 {
+			p.HasPrev = false
+		}
 		emit(p.Fix())
 	}
 	nShapes := 800
@@ -220,6 +224,35 @@ func runSharing(r *common.Rand) {
 			for k := 0; k <= len(x); k++ {
 				emitLive((&interpgen.Program{Unlock: []byte{}, Lock: cat(interpgen.Push(x), []byte{0x76}, interpgen.Push(interpgen.NumEnc(int64(k))), []byte{0x7f, 0x7e, 0x7c, 0x75, 0x51}), Flags: fl, Kind: "split"}).Fix())
 			}
+		}
+	}
+	// every ordered pair of transformations, the second applied to what the first left (directly, on a duplicate of it,
+	// and on the halves of a split of it): what a handler returns is what the next one receives
+	for i, t1 := range transforms {
+		for j, t2 := range transforms {
+			if !c.Thorough() && (i+2*j+int(c.Seed))%4 != 0 && !(t1.name == "CAT" || t2.name == "CAT") {
+				continue
+			}
+			x := twinValues[(i+j)%len(twinValues)]
+			mid := [][]byte{{}, {0x76}, {0x51, 0x7f, 0x7c}, {0x76, 0x6b}}[(i+j)%4] // nothing / DUP / 1 SPLIT SWAP / DUP TOALTSTACK
+			fl := uint32(0)
+			if (i+j)%2 == 0 {
+				fl = interpgen.FGenesis
+			}
+			emitLive((&interpgen.Program{Unlock: []byte{}, Lock: cat(interpgen.Push(x), t1.code, mid, t2.code, []byte{0x74, 0x75, 0x51}), Flags: fl, Kind: "pair"}).Fix())
+		}
+	}
+	// OP_CAT chains: a result extended again, an older copy of it extended differently, a half of it extended
+	for _, body := range [][]byte{
+		cat(interpgen.Push([]byte{0xaa}), interpgen.Push([]byte{0xbb}), []byte{0x7e}, interpgen.Push([]byte{0xcc}), []byte{0x7e}, interpgen.Push([]byte{0xdd}), []byte{0x7e}),
+		cat(interpgen.Push([]byte{0xaa}), interpgen.Push([]byte{0xbb}), []byte{0x7e}, interpgen.Push([]byte{0xcc}), []byte{0x7e, 0x76}, interpgen.Push([]byte{0xdd}), []byte{0x7e, 0x7c}, interpgen.Push([]byte{0xee}), []byte{0x7e}),
+		cat(interpgen.Push([]byte{0xaa, 0xbb}), interpgen.Push([]byte{0xcc, 0xdd}), []byte{0x7e, 0x52, 0x7f, 0x7c}, interpgen.Push([]byte{0xee}), []byte{0x7e}),
+		cat(interpgen.Push([]byte{0xaa, 0xbb}), interpgen.Push([]byte{0xcc, 0xdd}), []byte{0x7e, 0x76, 0x6b}, interpgen.Push([]byte{0xee}), []byte{0x7e, 0x6c}, interpgen.Push([]byte{0xff}), []byte{0x7e}),
+		cat(interpgen.Push([]byte{}), interpgen.Push([]byte{0xcc, 0xdd}), []byte{0x7e}, interpgen.Push([]byte{}), []byte{0x7e, 0x76}, interpgen.Push([]byte{0x01}), []byte{0x7e}),
+	} {
+		for _, fl := range []uint32{0, interpgen.FGenesis} {
+			emitLive((&interpgen.Program{Unlock: []byte{}, Lock: cat(body, []byte{0x74, 0x75, 0x51}), Flags: fl, Kind: "cat-chain"}).Fix())
+			emit((&interpgen.Program{Unlock: []byte{}, Lock: cat(body, []byte{0x74, 0x75, 0x51}), Flags: fl, Kind: "cat-chain"}).Fix())
 		}
 	}
 	// chains and generated programs without signature opcodes
